@@ -4,6 +4,8 @@ parsed or every serialiser returns a string; the object stays usable.
 Stream `C03`: hostile strings x every parser / formatter class and configuration.
 """
 import io
+import json
+import multiprocessing
 import os
 import signal
 import tempfile
@@ -22,7 +24,8 @@ FRAGMENTS = ['<', '>', '/', '=', '"', "'", '&', '#', ';', '!', '-', '?', ' ', '\
              '&amp;', '&amp', '&#', '&#x', '&#65;', '<a>', '</a>', '<b ', '</', '/>', '<br/>', '<p>', '</p>',
              '<div class="k" style="color: red">', '</div>', '<script>', '</script>', '<style>', '</style>',
              '<pre>', '</pre>', 'text', '<a href=x>', "<a b='c'>", '<input checked>', '<div style>', '<div class>',
-             ']]>', '<!', '<!x>', '</>', '< ', '<1', 'open>']
+             ']]>', '<!', '<!x>', '</>', '< ', '<1', 'open>', '<! doctype html>', '<!doctypehtml>', ' <!DOCTYPE html>',
+             ' ' * 40, '\n \t' * 12, '\r\n' * 15, '<div id>', '<li ID>', '<a name>', '<p class style>']
 
 
 def stripped(text):
@@ -142,7 +145,8 @@ class Check(PropCheck):
     def cases(self, tier, rng):
         fixed = ['', ' ', '<', '&', '&#', '<a', '</', '<!--', '<!', '<?', 'a<b</div>', '<div foo>x</div>', '<div style>x</div>',
                  '<details open>y</details>', '<!DOCTYPE html><p>a</p><p>b</p>', 'R&D', '<a>&', '<script>x', 'x<script>y',
-                 '<br/><br/>', '\x00', '<a \x00=1>', '<a b=">', "<a b='>", '<a/b>', '<a//>', '<p/ >', '</ a>', '<A B=C D>']
+                 '<br/><br/>', '\x00', '<! doctype html><a>', 'hello<!DOCTYPE html><p>x</p>', '<p>a</p>\n<!DOCTYPE html>\n<p>b</p>',
+                 ' ' * 60 + 'x<a>', '\n' * 30 + ' ' * 30 + '<a></a><b></b>', '<div id>x</div>', '<span id/>', '<a \x00=1>', '<a b=">', "<a b='>", '<a/b>', '<a//>', '<p/ >', '</ a>', '<A B=C D>']
         for t in fixed:
             for cls in CLASSES:
                 yield Case({'text': t, 'cls': cls, 'cfg': {}, 'entry': 'parseStr'}, 'corpus-fixed')
@@ -185,6 +189,9 @@ class Check(PropCheck):
 
     # ---- model side: plain and indexed parser -------------------------------------------------------------------
     def encode(self, d):
+        return self._call(d)[2]
+
+    def encode_inproc(self, d):
         if d['cls'] not in ('plain', 'indexed'):
             return '(() ())'
         text = stripped(d['text'])
@@ -209,7 +216,7 @@ class Check(PropCheck):
         else:
             obj.parseFile(_TextFile(text))
 
-    def impl(self, d):
+    def impl_inproc(self, d):
         if d['cls'] not in ('plain', 'indexed'):
             return '(first (empty none))'
         p = make(d['cls'], d['cfg'])
@@ -223,13 +230,67 @@ class Check(PropCheck):
         second = root is not None and root.tagName == WRAPPER
         return sx('second' if second else 'first', parsing.doc_sx(p))
 
+    # ---- isolation: every case runs in a worker process that the parent can kill -----------------------------------------
+    # (a regular-expression call that backtracks exponentially cannot be interrupted by a signal handler in process)
+    _proc = None
+    _conn = None
+    _cache = {}
+    _timeouts = 0
+
+    def _start(self):
+        ctx = multiprocessing.get_context('fork')
+        parent, child = ctx.Pipe()
+        proc = ctx.Process(target=_worker_main, args=(child,), daemon=True)
+        proc.start()
+        child.close()
+        Check._proc, Check._conn = proc, parent
+
+    def _call(self, d):
+        key = json.dumps(d, sort_keys=True)
+        if key in Check._cache:
+            return Check._cache[key]
+        if Check._timeouts >= 3:
+            # the time bound is already refuted three times in this run: do not spend minutes on more instances
+            res = ('(skipped-after-timeouts)', None, '(() ())')
+            Check._cache[key] = res
+            return res
+        if Check._proc is None or not Check._proc.is_alive():
+            self._start()
+        hard = max(6.0, 30 * (0.5 + 0.005 * len(d['text'])))
+        try:
+            Check._conn.send(d)
+            if Check._conn.poll(hard):
+                res = Check._conn.recv()
+            else:
+                raise TimeoutError()
+        except (TimeoutError, EOFError, BrokenPipeError, OSError):
+            try:
+                Check._proc.kill()
+                Check._proc.join(2)
+            except Exception:
+                pass
+            Check._proc = None
+            Check._timeouts += 1
+            res = ('(impl-timeout)', ('time', 'parse of %r on %s (%s) did not return within %.0f s (worker killed)'
+                                      % (d['text'], d['cls'], d['entry'], hard)), '(() ())')
+        if len(Check._cache) > 20000:
+            Check._cache.clear()
+        Check._cache[key] = res
+        return res
+
+    def impl(self, d):
+        return self._call(d)[0]
+
+    def oracle(self, d):
+        return self._call(d)[1]
+
     def compare(self, model_out, impl_out, d):
-        if d['cls'] not in ('plain', 'indexed'):
+        if d['cls'] not in ('plain', 'indexed') or impl_out in ('(impl-timeout)', '(skipped-after-timeouts)'):
             return None
         return PropCheck.compare(self, model_out, impl_out, d)
 
     # ---- the property itself -----------------------------------------------------------------------------------------
-    def oracle(self, d):
+    def oracle_inproc(self, d):
         text = d['text']
         budget = 0.5 + 0.005 * len(text)
         last = None
@@ -301,6 +362,27 @@ class Check(PropCheck):
                 if not isinstance(o, str):
                     return ('not-a-string', 'outerHTML of <%s> after %r is %s' % (e.tagName, text, type(o).__name__))
         return None
+
+
+def _worker_main(conn):
+    from ..core import safe_impl, safe_oracle
+
+    class Inner(Check):
+        impl = Check.impl_inproc
+        oracle = Check.oracle_inproc
+    chk = Inner()
+    while True:
+        try:
+            d = conn.recv()
+        except EOFError:
+            return
+        if d is None:
+            return
+        try:
+            payload = chk.encode_inproc(d)
+        except Exception:
+            payload = '(() ())'
+        conn.send((safe_impl(chk, d), safe_oracle(chk, d), payload))
 
 
 class _TextFile(io.TextIOWrapper):
